@@ -56,7 +56,9 @@ CLAIMS = {
                   "parsers (numbers taken are the numbers written, never wrapped), PORT/227 round trip for every IPv4 address "
                   "and port, EPRT syntax and port round trip, PORT refused for non-IPv4; model tied to the private static helpers "
                   "by exhaustive sweeps over all ports/port pairs/delimiters and enumerated malformed texts. The dispatch half "
-                  "(which method, which endpoint is connected to / advertised) is decided on the protocol model, see level_note.",
+                  "(Properties_C06_dispatch.v: method by configuration, connect to exactly the parsed port, malformed reply = error, PORT refused on IPv6) "
+                  "is proved on the protocol model and tied to the real client by histories over all eight combinations passive/active x RFC 2428 x IPv4/IPv6 "
+                  "where the scripted peer checks where each data connection arrives / that it can reach the advertised endpoint.",
              design="4/C06", note=LEAF_NOTE + " make_address/inet_pton (validity of the dotted quad h1.h2.h3.h4) is delegated to Boost/libc and not modelled.",
              technique="Coq proof (parser soundness/completeness, formatter round trip) + exhaustive differential correspondence"),
  "C16": dict(text="Theorems (iff) characterising when the 213 parsers yield a value and which value, for all codes and texts; "
